@@ -48,9 +48,21 @@ def check(cx):
         else:
             groups = [n for n in g.nodes if ev(n) == ('group',)]
             outers = [n for n in g.nodes if ev(n) == ('outer',)]
+            def origins(e, depth=0):
+                """the expression itself, or - when it is a local assigned on several arms of a match - every value assigned to it"""
+                root, _steps = access_path(e)
+                if root[0] == 'local' and depth < 3:
+                    ds = [x['rhs'] for x in g.nodes if x['kind'] == 'assign' and x['lhs'] == root] + \
+                         [x['value'] for x in g.nodes if x['kind'] in ('call', 'exit') and x.get('dest') == root and x.get('value')]
+                    if ds:
+                        return [o for d_ in ds for o in origins(d_, depth + 1)]
+                return [e]
             for n in groups:
                 r = n['args'][0]
+                srcs = origins(r)
                 entry = [e for e in walk(r) if e[0] == 'call' and e[1].endswith('HashMap::entry')]
+                if not entry and srcs and all(any(e[0] == 'call' and e[1].endswith('HashMap::entry') for e in walk(s_)) for s_ in srcs):
+                    entry = [e for e in walk(srcs[0]) if e[0] == 'call' and e[1].endswith('HashMap::entry')]
                 keyed = entry and mentions(entry[0], lambda e: e[0] == 'call' and e[1] in ('std::ops::FnMut::call_mut', 'std::ops::Fn::call', 'std::ops::FnOnce::call_once')
                                            and mentions(e, lambda a: a[0] == 'arg' and a[1] == 2))
                 if not keyed:
@@ -64,14 +76,28 @@ def check(cx):
                 ok = False
                 msg = 'a group created for a new key is never announced to the stream of groups'
             for n in outers:
-                if 'std::collections::hash_map::Entry::or_insert_with' not in g.vias(n):
-                    ok = False
-                    msg = 'the group is announced outside the insert-once closure (it would be announced for every item)'
                 a = n['args'][1] if len(n['args']) > 1 else ('unknown', '')
                 subj = [e for e in walk(a) if e[0] == 'call' and e[1] == 'std::clone::Clone::clone']
-                # the closure returns the subject it announced a clone of
-                rets = [x for x in g.nodes if x['kind'] == 'assign' and x['ctx'] == n['ctx'] and x['lhs'][0] == 'local' and isinstance(x['lhs'][1], tuple) and x['lhs'][1][1] == 0]
-                same = subj and rets and all(strip(x['rhs']) == strip(subj[0][2][0]) for x in rets)
+                if 'std::collections::hash_map::Entry::or_insert_with' in g.vias(n):
+                    # the closure returns the subject it announced a clone of
+                    rets = [x for x in g.nodes if x['kind'] == 'assign' and x['ctx'] == n['ctx'] and x['lhs'][0] == 'local' and isinstance(x['lhs'][1], tuple) and x['lhs'][1][1] == 0]
+                    same = subj and rets and all(strip(x['rhs']) == strip(subj[0][2][0]) for x in rets)
+                else:
+                    # explicit `match map.entry(k) { Vacant(slot) => { announce; slot.insert(subject) } .. }`: announced on one arm of
+                    # the match on the entry only, and the subject inserted there is the one a clone of which was announced
+                    from ..core import reachable
+                    sw = [x for x in g.nodes if x['kind'] == 'switch' and mentions(x['discr'], lambda e: e[0] == 'call' and e[1].endswith('HashMap::entry'))]
+                    one_arm = False
+                    for x in sw:
+                        arms = [m for m, k, l in g.succs(x['id'])]
+                        hit = [m for m in arms if n['id'] in reachable(g, [m])]
+                        if len(arms) >= 2 and len(hit) == 1:
+                            one_arm = True
+                    ins = [x for x in g.nodes if x['kind'] == 'call' and x['name'].endswith('VacantEntry::insert') and len(x['args']) > 1]
+                    same = subj and ins and all(strip(x['args'][1]) == strip(subj[0][2][0]) for x in ins)
+                    if not one_arm:
+                        ok = False
+                        msg = 'the group is announced outside the insert-once closure (it would be announced for every item)'
                 if not same:
                     ok = False
                     msg = 'the announced group does not wrap (a clone of) the subject that is inserted into the map'
